@@ -4,16 +4,17 @@ CHECK = {
     "packages": ["./crdt"],
     "harness": ["crdt/zz_verif_c38.go"],
     "entries": [
-        {"fn": P + "vC38_gcounter", "cases": {"slots": [6]}},
-        {"fn": P + "vC38_pncounter", "cases": {"slots": [6]}},
-        {"fn": P + "vC38_flag", "cases": {"slots": [6]}},
-        {"fn": P + "vC38_lww", "cases": {"slots": [6]}},
-        {"fn": P + "vC38_lww_anyclock", "cases": {"slots": [6]}},
-        {"fn": P + "vC38_mvregister", "cases": {"slots": [6]}},
-        {"fn": P + "vC38_orset", "cases": {"slots": [6]}},
-        {"fn": P + "vC38_ormap", "cases": {"slots": [6]}},
+        {"fn": P + "vC38_gcounter", "cases_quick": {"slots": [6]}, "cases_thorough": {"slots": [9]}},
+        {"fn": P + "vC38_pncounter", "cases_quick": {"slots": [6]}, "cases_thorough": {"slots": [9]}},
+        {"fn": P + "vC38_flag", "cases_quick": {"slots": [6]}, "cases_thorough": {"slots": [9]}},
+        {"fn": P + "vC38_lww", "cases_quick": {"slots": [6]}, "cases_thorough": {"slots": [9]}},
+        {"fn": P + "vC38_lww_anyclock", "cases_quick": {"slots": [6]}, "cases_thorough": {"slots": [9]}},
+        {"fn": P + "vC38_mvregister", "cases_quick": {"slots": [6]}, "cases_thorough": {"slots": [7]}},
+        {"fn": P + "vC38_orset", "cases_quick": {"slots": [4], "part": [0, 1, 2]}, "cases_thorough": {"slots": [5], "part": [0, 1, 2]}},
+        {"fn": P + "vC38_ormap", "cases_quick": {"slots": [4], "part": [0, 1, 2]}, "cases_thorough": {"slots": [5], "part": [0, 1, 2]}},
     ],
-    "opts": {"unwind": 10, "feas_from_iter": 100, "map_range": "per_entry", "map_dedup": True},
+    "opts": {"unwind": 10, "feas_from_iter": 100, "map_range": "per_entry", "map_dedup": True, "batch_fresh": True},
+    "timeout_ms": {"quick": 400000, "thorough": 3000000},
     "explanation": "",
     "bounds": {},
 }
